@@ -1,3 +1,4 @@
+import Hm.C04Category
 import Hm.C18Req
 import Hm.C11Req
 import Hm.FuelMono
@@ -127,3 +128,5 @@ import Hm.Statements
 #print axioms C11_request_reparse_rhymuri
 #print axioms C18_request_framing_case
 #print axioms C18_text_name_case
+#print axioms C03_request_line_category
+#print axioms C04_status_line_category
